@@ -769,6 +769,73 @@ fn scaling(thorough: bool) -> Stats {
     st
 }
 
+/// The `context_map!` macro is a second way "through the API" to build a context: every entry kind (`int`,
+/// `float`, a plain value, a function) in every position (only, first, middle, last), with and without the
+/// trailing comma, and a retyped duplicate key; the result must be the context the equivalent set_value /
+/// set_function calls build.
+fn context_map_forms() -> Stats {
+    use evalexpr::{context_map, DefaultNumericTypes as D, Function as F, HashMapContext as H};
+    let mut st = Stats::new();
+    let mut case = |label: &str, got: Result<H<D>, EErr>, want_vars: &[(&str, RV)], want_funcs: &[&str], want_err: bool| {
+        st.evaluations += 1;
+        st.count("context-map-forms");
+        let ok = match &got {
+            Err(_) => want_err,
+            Ok(c) => {
+                let vars: Vec<(String, String)> = {
+                    let mut v: Vec<(String, String)> = want_vars.iter().map(|(n, v)| (n.to_string(), v.key())).collect();
+                    v.sort();
+                    v
+                };
+                !want_err
+                    && observe_vars(c) == vars
+                    && want_funcs.iter().all(|f| matches!(c.call_function(f, &Value::Int(1)), Ok(Value::Int(43))))
+                    && matches!(c.call_function("nofn", &Value::Int(1)), Err(evalexpr::EvalexprError::FunctionIdentifierNotFound(_)))
+            },
+        };
+        if !ok {
+            st.violation(Violation {
+                property: ID,
+                kind: "context-map-macro".into(),
+                input: json!({"codes": [], "history": [format!("context_map! {{ {} }}", label)]}),
+                expected: if want_err { "an expected-type error".to_string() } else { format!("variables {:?}, functions {:?}", want_vars.iter().map(|(n, v)| (n.to_string(), v.key())).collect::<Vec<_>>(), want_funcs) },
+                actual: match &got {
+                    Ok(c) => format!("variables {:?}", observe_vars(c)),
+                    Err(e) => format!("Err({:?})", e),
+                },
+                test: test_wrap("c04_replay", &format!("    let c: Result<HashMapContext<DefaultNumericTypes>, _> = context_map! {{ {} }};\n    panic!(\"{{:?}}\", c);\n", label)),
+            });
+        }
+    };
+    let (i5, f25, s, b) = (RV::Int(5), RV::Float(2.5), RV::Str("t".into()), RV::Bool(true));
+    macro_rules! cm {
+        ($label:literal, [$($vars:expr),*], [$($funcs:expr),*], $err:expr, $($tt:tt)*) => {
+            case($label, context_map! { $($tt)* }, &[$($vars),*], &[$($funcs),*], $err)
+        };
+    }
+    cm!("\"a\" => int 5", [("a", i5.clone())], [], false, "a" => int 5);
+    cm!("\"a\" => int 5,", [("a", i5.clone())], [], false, "a" => int 5,);
+    cm!("\"a\" => float 2.5", [("a", f25.clone())], [], false, "a" => float 2.5);
+    cm!("\"a\" => float 2.5,", [("a", f25.clone())], [], false, "a" => float 2.5,);
+    cm!("\"a\" => \"t\"", [("a", s.clone())], [], false, "a" => "t");
+    cm!("\"a\" => true,", [("a", b.clone())], [], false, "a" => true,);
+    cm!("\"f\" => Function::new(..)", [], ["f"], false, "f" => Function::new(|a| Ok(Value::Int(a.as_int()? + 42))));
+    cm!("\"f\" => Function::new(..),", [], ["f"], false, "f" => Function::new(|a| Ok(Value::Int(a.as_int()? + 42))),);
+    cm!("\"b\" => float 2.5, \"a\" => int 5", [("a", i5.clone()), ("b", f25.clone())], [], false, "b" => float 2.5, "a" => int 5);
+    cm!("\"b\" => int 5, \"a\" => float 2.5", [("a", f25.clone()), ("b", i5.clone())], [], false, "b" => int 5, "a" => float 2.5);
+    cm!("\"b\" => \"t\", \"a\" => int 5,", [("a", i5.clone()), ("b", s.clone())], [], false, "b" => "t", "a" => int 5,);
+    cm!("\"a\" => int 5, \"f\" => Function::new(..)", [("a", i5.clone())], ["f"], false, "a" => int 5, "f" => Function::new(|a| Ok(Value::Int(a.as_int()? + 42))));
+    cm!("\"f\" => Function::new(..), \"a\" => float 2.5", [("a", f25.clone())], ["f"], false, "f" => Function::new(|a| Ok(Value::Int(a.as_int()? + 42))), "a" => float 2.5);
+    cm!("\"a\" => int 5, \"b\" => true, \"c\" => float 2.5", [("a", i5.clone()), ("b", b.clone()), ("c", f25.clone())], [], false, "a" => int 5, "b" => true, "c" => float 2.5);
+    cm!("\"a\" => float 2.5, \"f\" => Function::new(..), \"c\" => int 5", [("a", f25.clone()), ("c", i5.clone())], ["f"], false, "a" => float 2.5, "f" => Function::new(|a| Ok(Value::Int(a.as_int()? + 42))), "c" => int 5);
+    cm!("\"a\" => int 5, \"a\" => int 6", [("a", RV::Int(6))], [], false, "a" => int 5, "a" => int 6);
+    cm!("\"a\" => int 5, \"a\" => float 2.5", [], [], true, "a" => int 5, "a" => float 2.5);
+    cm!("\"a\" => \"t\", \"a\" => int 5", [], [], true, "a" => "t", "a" => int 5);
+    cm!("(empty)", [], [], false,);
+    let _ = (F::<D>::new(|a| Ok(a.clone())), b);
+    st
+}
+
 pub fn run(cfg: &Cfg) -> Report {
     let mut stats = Stats::new();
     let mut extra = serde_json::Map::new();
@@ -829,12 +896,13 @@ pub fn run(cfg: &Cfg) -> Report {
         }
     }
     stats.merge(scaling(cfg.tier == Tier::Thorough));
+    stats.merge(context_map_forms());
     // distinct non-trivial = unique abstract states reached (each a distinct context content)
     stats.add("nontrivial-distinct", stats.states);
     Report {
         property: ID,
         level: "model_checking",
-        rule: format!("explicit-state breadth-first search (stateright) from the empty context; a state is the real HashMapContext paired with the abstract map model, merged by (sorted observation of the real context, model); every transition calls the real API on a clone (set_value; `n = lit`; `n op= lit` for the 8 op-assign operators x one right-hand side per type; `n op= lit op lit` with the operator's own base operator on the right-hand side; `n = m`; `n = unbound`; clear_variables / clear_functions / clear; set_function; builtin switch; clone-and-continue) over names {{a, b}} (+ never-bound c), 15 values (ints 1, 2; floats 1.5, 1.0, 0.0, -0.0, NaN; strings `s` and `a` (the latter spells a variable name); two booleans; tuples of length 0/1/2; Empty); after every transition the return value and the complete observation (get_value of every name, both listings, call_function of every function name, builtin switch, reads through eval_with_context) are compared with the model, and the parent state must be unchanged. Closed sub-machine to closure; with op-assign inside a magnitude box (|int| <= 8, strings <= 3 bytes, closed float set): transitions leaving the box are executed and checked but not expanded; plus all unmerged histories of depth {depth} over the full action alphabet; plus scaling families: contexts with n variables of cycling types (set, listed, looked up, retyped, cloned, cleared) and n rounds of op-assigns on one variable, n in 1..20 and up to 129 / 1..40 and up to 400. Non-trivial/distinct = unique abstract states"),
+        rule: format!("explicit-state breadth-first search (stateright) from the empty context; a state is the real HashMapContext paired with the abstract map model, merged by (sorted observation of the real context, model); every transition calls the real API on a clone (set_value; `n = lit`; `n op= lit` for the 8 op-assign operators x one right-hand side per type; `n op= lit op lit` with the operator's own base operator on the right-hand side; `n = m`; `n = unbound`; clear_variables / clear_functions / clear; set_function; builtin switch; clone-and-continue) over names {{a, b}} (+ never-bound c), 15 values (ints 1, 2; floats 1.5, 1.0, 0.0, -0.0, NaN; strings `s` and `a` (the latter spells a variable name); two booleans; tuples of length 0/1/2; Empty); after every transition the return value and the complete observation (get_value of every name, both listings, call_function of every function name, builtin switch, reads through eval_with_context) are compared with the model, and the parent state must be unchanged. Closed sub-machine to closure; with op-assign inside a magnitude box (|int| <= 8, strings <= 3 bytes, closed float set): transitions leaving the box are executed and checked but not expanded; plus all unmerged histories of depth {depth} over the full action alphabet; plus 19 forms of the context_map! macro (every entry kind in every position, with and without the trailing comma, retyped duplicate keys) against the equivalent API calls; scaling families: contexts with n variables of cycling types (set, listed, looked up, retyped, cloned, cleared) and n rounds of op-assigns on one variable, n in 1..20 and up to 129 / 1..40 and up to 400. Non-trivial/distinct = unique abstract states"),
         nontrivial_set: "counter:nontrivial-distinct",
         exhaustive: true,
         bound_completed: format!("closed machine: closure; boxed machine: {}; unmerged histories: depth {}", match cfg.tier { Tier::Quick => "depth 3", Tier::Thorough => "fixpoint of the box" }, depth),
@@ -880,6 +948,7 @@ pub fn replay(case: &J) -> i32 {
     if codes.is_empty() {
         // a scaling-family case: the families are cheap, re-run them
         st = scaling(true);
+        st.merge(context_map_forms());
         return super::replay_verdict(ID, &st);
     }
     for c in codes {
